@@ -88,6 +88,8 @@ func Select(hasDefault bool, cases ...Case) *Sel {
 		c := &cases[sel.Index]
 		if c.c.Send {
 			c.send()
+		} else if op.Offer != nil {
+			sel.val, sel.ok = op.Offer.Val, true
 		} else {
 			c.recv(sel)
 		}
@@ -125,7 +127,23 @@ func Send[T any](ch chan<- T, v T) {
 	}
 	k := *(*uintptr)(unsafe.Pointer(&ch))
 	if ch != nil && cap(ch) == 0 {
-		Unsupported("send on unbuffered channel")
+		// unbuffered: the sender holds its value out and waits until a receiver has taken it
+		off := &Offer{Val: v}
+		op := &Op{Kind: KSend, Key: k, Ref: ch, Offer: off, Desc: "send (unbuffered)"}
+		if !Do(op) {
+			return
+		}
+		if op.Result < 0 {
+			panic("send on closed channel")
+		}
+		op = &Op{Kind: KSendWait, Key: k, Ref: ch, Offer: off, Desc: "send (unbuffered) taken"}
+		if !Do(op) {
+			return
+		}
+		if op.Result < 0 {
+			panic("send on closed channel")
+		}
+		return
 	}
 	if !Do(&Op{Kind: KSend, Key: k, Cap: cap(ch), Len: len(ch), Ref: ch, Desc: "send"}) {
 		return
@@ -133,14 +151,27 @@ func Send[T any](ch chan<- T, v T) {
 	ch <- v
 }
 
+// offered converts the value taken from a sender on an unbuffered channel.
+func offered[T any](o *Offer) T {
+	if o.Val == nil {
+		var z T
+		return z
+	}
+	return o.Val.(T)
+}
+
 // Recv is `<-ch`.
 func Recv[T any](ch <-chan T) T {
 	if !Active() {
 		return <-ch
 	}
-	if !Do(&Op{Kind: KRecv, Key: KeyOfRecv(ch), Cap: cap(ch), Len: len(ch), Ref: ch, Desc: "recv"}) {
+	op := &Op{Kind: KRecv, Key: KeyOfRecv(ch), Cap: cap(ch), Len: len(ch), Ref: ch, Desc: "recv"}
+	if !Do(op) {
 		var z T
 		return z
+	}
+	if op.Offer != nil {
+		return offered[T](op.Offer)
 	}
 	return <-ch
 }
@@ -151,9 +182,13 @@ func Recv2[T any](ch <-chan T) (T, bool) {
 		v, ok := <-ch
 		return v, ok
 	}
-	if !Do(&Op{Kind: KRecv, Key: KeyOfRecv(ch), Cap: cap(ch), Len: len(ch), Ref: ch, Desc: "recv"}) {
+	op := &Op{Kind: KRecv, Key: KeyOfRecv(ch), Cap: cap(ch), Len: len(ch), Ref: ch, Desc: "recv"}
+	if !Do(op) {
 		var z T
 		return z, false
+	}
+	if op.Offer != nil {
+		return offered[T](op.Offer), true
 	}
 	v, ok := <-ch
 	return v, ok
